@@ -17,13 +17,23 @@ LEVEL_TEXT = (
     "segment-wise evaluation for every chunk size >= 1 and every non-negative index table (any K, no ring laws needed); "
     "on a monotone table from 0 to N each point receives the weight of the atom owning its segment; Hirshfeld weights "
     "are the pro-atom share and the shares sum to one; every element 1..86 (incl. nan radii) gets a positive radius "
-    "(kernel-decided on the regenerated table). Tie to the code: switching polynomial, alpha, cutoff, nu/s formulas of "
-    "both routes, chunk size, loop and slice/clip arithmetic and the radius table are regenerated from becke.py on "
-    "every run; the hand model of the array code is compared with the implementation on generated molecules."
+    "(kernel-decided on the regenerated table). Tie to the code (round 2): BeckeWeights.__init__, generate_weights, "
+    "compute_atom_weight, compute_weights, __call__ and HirshfeldWeights (_load_npz_proatom, _get_proatom_density, "
+    "generate_proatom, __call__) are translated statement by statement from the AST on every run (Gen/BeckeRoutes.lean, "
+    "Gen/Hirshfeld.lean) and PROVED equal to the hand model the clauses are stated on (generate_weights_generated, "
+    "compute_weights_generated, compute_atom_weight_generated, call_generated, hirshfeld_generated, radius_generated, "
+    "init_generated, init_default_dict), so every clause is a theorem about the regenerated text; the arguments of every "
+    "call between the routines (order= / cutoff= / select= / pt_ind=) are bound against the callee's signature and are "
+    "generated text (routes_formula_agree, routes_pass_order, caw_cutoff_parameter_unused depend on them). For an explicit "
+    "select both segment-wise routes have their general formula proved (generate_select_formula: atom select[i] on sector "
+    "i; compute_select_formula: atom i on sector i once per occurrence, compute_select_perm: order of select irrelevant). "
+    "Only the NumPy array pipeline n_p .. np.prod (text-pinned, read entry by entry), SciPy's CubicSpline and the file "
+    "contents (named primitives) are tied by the differential run alone."
 )
 TECHNIQUE = "Lean 4 proof (generated formulas + hand model of the array code) + differential correspondence + oracle on the implementation"
-GEN = ["becke"]
-LEAN_MODULES = ["GridVerif.Props.C06", "GridVerif.Props.C06.Index", "GridVerif.Props.C06.Radii"]
+GEN = ["becke", "becke_routes", "hirshfeld"]
+LEAN_MODULES = ["GridVerif.Props.C06", "GridVerif.Props.C06.Index", "GridVerif.Props.C06.Radii", "GridVerif.Props.C06.Routes",
+                "GridVerif.Props.C06.Select", "GridVerif.Props.C06.Init", "GridVerif.Props.C06.CallGen", "GridVerif.Props.C06.Hirshfeld"]
 THEOREMS = [
     "GridVerif.C06.switch_maps_unit",
     "GridVerif.C06.switch_lt_one",
@@ -52,30 +62,76 @@ THEOREMS = [
     "GridVerif.C06.hirshfeld_sum_one",
     "GridVerif.C06.bragg_table_good",
     "GridVerif.C06.bragg_radii_positive",
+    # round 2: the generated call arguments, the generated routines, explicit select, __init__, Hirshfeld
+    "GridVerif.C06.caw_cutoff_parameter_unused",
+    "GridVerif.C06.routes_pass_order",
+    "GridVerif.C06.radius_generated",
+    "GridVerif.C06.generate_weights_generated",
+    "GridVerif.C06.generate_weights_key_error",
+    "GridVerif.C06.compute_atom_weight_generated",
+    "GridVerif.C06.compute_weights_generated",
+    "GridVerif.C06.routes_agree_generated",
+    "GridVerif.C06.per_atom_route_generated",
+    "GridVerif.C06.generate_select_formula",
+    "GridVerif.C06.compute_select_formula",
+    "GridVerif.C06.compute_select_perm",
+    "GridVerif.C06.generate_select_owner",
+    "GridVerif.C06.compute_select_owner",
+    "GridVerif.C06.init_generated",
+    "GridVerif.C06.cov_radii_table",
+    "GridVerif.C06.init_default_dict",
+    "GridVerif.C06.init_update_lookup",
+    "GridVerif.C06.call_generated",
+    "GridVerif.C06.becke_call_partition_generated",
+    "GridVerif.C06.proatom_files",
+    "GridVerif.C06.hirshfeld_generated",
+    "GridVerif.C06.hirshfeld_share_generated",
+    "GridVerif.C06.hirshfeld_sum_one_generated",
+    "GridVerif.C06.hirshfeld_needs_files",
 ]
 RULE = (
-    "correspondence: molecules with 1..13 atoms (1..4 always), atomic numbers 1..86 incl. nan-radius elements "
-    "(He, Ne, Ar, Kr, Xe, At, Rn) and user radius dictionaries, points at nuclei / on bond axes / far (1e2..1e6) / random, "
-    "orders 0..5, random monotone segmentations (incl. empty segments) and a malformed stream (non-monotone, negative, "
-    "over-long tables, permuted select); every route (generate_weights, compute_weights, compute_atom_weight, __call__ with "
-    "the recorded chunk trace), Hirshfeld.__call__, and the generated formulas (switch, alpha, chunk size, radii) sent to the "
-    "implementation and to the Lean model; non-trivial = >=4 atoms with >=2 chunks, or a clipped heteronuclear pair, or a "
-    "nan-radius element, or a point on a nucleus"
+    "correspondence: molecules with 1..13 atoms (1..4 always; one with 40, thorough: 100+), atomic numbers 1..86 incl. "
+    "nan-radius elements (He, Ne, Ar, Kr, Xe, At, Rn) and user radius dictionaries, nuclei at nearly the same position "
+    "(1e-2..1e-7), points at nuclei / on bond axes / far (1e2..1e6) / random, orders 0..5, random monotone segmentations "
+    "(incl. empty segments) and a malformed stream (non-monotone, negative, over-long tables, permuted / truncated / "
+    "out-of-range explicit select); every route (generate_weights, compute_weights, compute_atom_weight incl. its cutoff "
+    "parameter, __call__ with the recorded chunk trace) through the GENERATED routines on the object built by the "
+    "generated __init__, part of them also through the hand model; __init__ with int / bool / np.int64 / float / None "
+    "orders, dictionaries with int / bool / np.int64 / float / str keys, non-dictionaries; Hirshfeld.__call__ through the "
+    "generated call with independently evaluated splines of every shipped file, elements without file, non-int64 "
+    "dtypes, bad tables; array kinds (float32, Fortran order, non-contiguous, read-only, int32/uint8/float atnums, "
+    "int32 indices, tuple/ndarray pt_ind, np.int64 select; lists as information) against the float64/int64 call; one "
+    "BeckeWeights / HirshfeldWeights object reused over several molecules in shuffled order (same sizes, other "
+    "elements) against fresh objects and the stateless model; the generated formulas (switch, alpha, chunk size, radii). "
+    "non-trivial = >=4 atoms with >=2 chunks, or a clipped heteronuclear pair, or a nan-radius element, or a point on a nucleus"
 )
 TRUSTED_BASE = [
     "Lean 4.33 kernel; axioms propext, Classical.choice, Quot.sound only (audited per theorem)",
-    "translator harness/translate/becke.py (AST of becke.py -> generic-K defs; self-checked at Float against the methods)",
-    "hand model Model/Becke.lean of the NumPy array code (entry-wise reading of slice += / =, nan->1 as 'skip B = A'), tied by correspondence",
+    "translators harness/translate/becke.py (formulas, call arguments), becke_routes.py (__init__, the four routines, radius "
+    "comprehension, statement by statement) and hirshfeld.py (all four methods); the driver runs the generated definitions, "
+    "so a translator error shows as a disagreement with the implementation",
+    "primitives Model/BeckePy.lean (pyGetItem, pyRange, npSliceAddInto, npSliceSet, npColDivRowSum, dictionaries, f-string "
+    "formatting) and the entry-wise reading `cellTab` of the text-pinned array pipeline (Model/Becke.lean: nan->1 as 'skip B = A'), "
+    "tied by correspondence",
+    "named, unmodelled primitives: np.load of the pro-atom files, scipy CubicSpline(bc_type='natural', extrapolate=True) (the "
+    "Hirshfeld theorems hold for every file content and every spline)",
     "Elem instance of the reals: sqrt = Real.sqrt; distance = Euclidean distance of R^3 (bridge lemma dist3_eq_dist)",
     "NumPy broadcasting / slicing / np.prod / np.sum / np.linalg.norm semantics as modelled",
 ]
 ASSUMPTIONS = [
     "nuclei at pairwise distinct positions, effective radii positive (proved for the shipped table; a user dictionary must be positive)",
-    "exact real arithmetic in the theorems; IEEE rounding only through the tolerance of the correspondence (1e-10 on weights)",
+    "exact real arithmetic in the theorems; IEEE rounding only through the tolerance of the correspondence (1e-10 on weights, "
+    "scaled by distance / smallest inter-nuclear distance for far points and nearly coincident nuclei)",
     "points.shape[0] >= 1 for __call__ (np.concatenate of an empty list raises ValueError; modelled and compared)",
-    "select is the default (None) in the route-equality theorem: with an explicit permuted select and several sectors "
-    "compute_weights ignores the order of select while generate_weights honours it (modelled as the code is; reported as info)",
-    "Hirshfeld pro-atom densities (cubic spline of shipped data) are a parameter of the model; promolecule != 0 at the point",
+    "select entries and atomic numbers are non-negative integers in the model (Python's negative indexing of select is not modelled); "
+    "user dictionaries have no negative keys (hypothesis of radius_generated)",
+    "route equality is claimed for the default select; for an explicit select the two routes differ by design of the code "
+    "(general formulas proved for both; reported as info)",
+    "the cutoff parameter of compute_atom_weight has no effect in the code as it is (caw_cutoff_parameter_unused; outside the wording of C06)",
+    "array arguments are ndarrays as documented ((N,3) points, (M,3) atcoords, (M,) atnums, (M+1,) indices); lists are rejected by some "
+    "routes and a single point of shape (3,) is broadcast to three equal weights (information only); atcoords given in float32 make the "
+    "inter-nuclear distances single precision (recorded deviation ~1e-8, clauses unaffected)",
+    "Hirshfeld: promolecule != 0 at the point; atnums of dtype int64 (anything else is rejected by the code with TypeError)",
 ]
 
 NAN_Z = [2, 10, 18, 36, 54, 85, 86]
@@ -130,11 +186,16 @@ def _table(rng, n, m):
     return [0] + cuts + [n]
 
 
-def _molecule(ctx: Ctx, m=None, n=None):
+def _molecule(ctx: Ctx, m=None, n=None, close=None):
     rng = ctx.rng
     if m is None:
         m = rng.choice([1, 2, 3, 4, 5, 6, 7, 8, 9, 10, 11, 12, 13])
     at = _geometry(rng, m)
+    if close is not None and m >= 2:
+        # two nuclei at nearly the same (but distinct) position
+        i, j = rng.sample(range(m), 2)
+        d = np.array([rng.gauss(0, 1) for _ in range(3)])
+        at[j] = at[i] + d / np.linalg.norm(d) * close
     nums = []
     for _ in range(m):
         u = rng.random()
@@ -226,7 +287,13 @@ def _tol(mol):
     if len(pts) == 0:
         return 1e-10
     far = float(np.max(np.linalg.norm(pts[:, None] - at, axis=-1)))
-    return 1e-10 * max(1.0, far * 1e-3)
+    tol = 1e-10 * max(1.0, far * 1e-3)
+    if len(at) >= 2:
+        d = np.linalg.norm(at[:, None] - at, axis=-1)
+        dmin = float(np.min(d[~np.eye(len(at), dtype=bool)]))
+        if dmin < 0.5:
+            tol = max(tol, 1e-13 * max(far, 1.0) / dmin)
+    return tol
 
 
 def _nontrivial(mol, nchunks=1):
@@ -363,6 +430,12 @@ def _corr_molecules(ctx: Ctx, mod, hmod):
     mols = [_molecule(ctx, m=m) for m in (1, 1, 2, 2, 2, 3, 3, 4, 4, 5)] + [_molecule(ctx) for _ in range(nmol)]
     # many points with >= 4 atoms: several chunks
     mols += [_molecule(ctx, m=rng.choice([4, 5, 7, 9, 13]), n=rng.choice([40, 75, 120])) for _ in range(ctx.n(10, 150))]
+    # two nuclei at nearly the same position (distinct): distances 1e-2 .. 1e-7
+    mols += [_molecule(ctx, m=rng.choice([2, 3, 5]), n=rng.choice([3, 8]), close=10.0 ** -rng.choice([2, 4, 6, 7])) for _ in range(ctx.n(8, 80))]
+    # many atoms: chunk size 1 for every chunk (10 * npoints // natom**2 == 0)
+    mols += [_molecule(ctx, m=40, n=5)]
+    if ctx.thorough:
+        mols += [_molecule(ctx, m=rng.choice([100, 130]), n=rng.choice([3, 9])) for _ in range(2)]
     tr = _Trace(mod)
     jobs = []  # (line, impl result, key, description, tolerance, case, nontrivial, tag)
     for mol in mols:
@@ -375,7 +448,7 @@ def _corr_molecules(ctx: Ctx, mod, hmod):
         except Exception as e:  # constructor rejects the dictionary
             ctx.info(f"constructor raised {type(e).__name__} for radii {mol['over']}")
             continue
-        case = {"atnums": nums, "atcoords": at, "order": mol["order"], "radii": mol["over"], "npoints": n}
+        case = {"atnums": nums, "atcoords": at, "order": mol["order"], "radii": mol["over"], "npoints": n, "points": pts}
         # -- all cell values, both copies of the formulas
         for route, fn in (("gw", lambda k: b.generate_weights(pts, at, nums, select=k)),
                           ("caw", lambda k: b.compute_atom_weight(pts, at, nums, k))):
@@ -389,11 +462,25 @@ def _corr_molecules(ctx: Ctx, mod, hmod):
         jobs.append((f"C06.compute {mt} {pt} - {vec(tab)}", r, "compute_weights", f"pt_ind={tab}", tol, case, _nontrivial(mol), "compute:table", "vec"))
         k = rng.randrange(m)
         r = _run(lambda: b.generate_weights(pts, at, nums, select=k))
-        jobs.append((f"C06.generate {mt} {pt} 1 {k} -", r, "generate_weights:select", f"select={k}", tol, case, _nontrivial(mol), "generate:select", "vec"))
+        jobs.append((f"C06.generate {mt} {pt} i {k} -", r, "generate_weights:select", f"select={k}", tol, case, _nontrivial(mol), "generate:select", "vec"))
+        r = _run(lambda: b.generate_weights(pts, at, nums, select=np.int64(k), pt_ind=[0, n]))
+        jobs.append((f"C06.generate {mt} {pt} i {k} 2 0 {n}", r, "generate_weights:select", f"select=np.int64({k}), pt_ind=[0, {n}]", tol, case, _nontrivial(mol), "generate:select:one-sector", "vec"))
         r = _run(lambda: b.compute_weights(pts, at, nums, select=[k]))
         jobs.append((f"C06.compute {mt} {pt} 1 {k} -", r, "compute_weights:select", f"select=[{k}]", tol, case, _nontrivial(mol), "compute:select", "vec"))
         r = _run(lambda: b.compute_atom_weight(pts, at, nums, k))
         jobs.append((f"C06.atom {mt} {pt} {k}", r, "compute_atom_weight", f"select={k}", tol, case, _nontrivial(mol), "atom", "vec"))
+        # the `cutoff` parameter of compute_atom_weight (positional and keyword): what it is passed on to is generated text
+        cut = rng.choice([0.2, 0.3, 0.45, 0.49, rng.uniform(0.05, 0.6)])
+        r = _run((lambda: b.compute_atom_weight(pts, at, nums, k, cut)) if rng.random() < 0.5 else (lambda: b.compute_atom_weight(pts, at, nums, k, cutoff=cut)))
+        jobs.append((f"C06.atom {mt} {pt} {k} {f2b(cut)}", r, "compute_atom_weight:cutoff", f"select={k} cutoff={cut}", tol, case, _nontrivial(mol), "atom:cutoff", "vec"))
+        # the hand model of the same routines (proved equal to the generated ones) on part of the molecules
+        if rng.random() < 0.3:
+            r = _run(lambda: b.generate_weights(pts, at, nums, pt_ind=tab))
+            jobs.append((f"C06.hgenerate {mt} {pt} - {vec(tab)}", r, "generate_weights:hand-model", f"pt_ind={tab}", tol, case, False, "hand:generate", "vec"))
+            r = _run(lambda: b.compute_weights(pts, at, nums, pt_ind=tab))
+            jobs.append((f"C06.hcompute {mt} {pt} - {vec(tab)}", r, "compute_weights:hand-model", f"pt_ind={tab}", tol, case, False, "hand:compute", "vec"))
+            r = _run(lambda: b(pts, at, nums, np.array(tab)))
+            jobs.append((f"C06.hcall {mt} {pt} {vec(tab)}", r, "__call__:hand-model", f"indices={tab}", tol, case, False, "hand:call", "vec"))
         # -- the chunked whole-grid call, with the trace of its chunk calls
         tr.calls = []
         r = _run(lambda: bt(pts, at, nums, np.array(tab)))
@@ -476,7 +563,21 @@ def _hirshfeld_case(ctx: Ctx, hmod, m=None):
     at = _geometry(rng, m)
     nums = np.array([rng.choice([1, 6, 7, 8]) for _ in range(m)], dtype=int)
     n = rng.choice([1, 2, 5, 9, 17])
-    pts = np.array([at[rng.randrange(m)] + np.array([rng.gauss(0, 0.9) for _ in range(3)]) for _ in range(n)])
+    pts = []
+    for _ in range(n):
+        a = at[rng.randrange(m)]
+        u = rng.random()
+        d = np.array([rng.gauss(0, 1) for _ in range(3)])
+        d /= np.linalg.norm(d)
+        if u < 0.1:
+            pts.append(a.copy())                                    # on a nucleus (first knot of the spline)
+        elif u < 0.3:
+            pts.append(a + d * 10 ** rng.uniform(-3, -1))           # between the first knots (boundary condition of the spline)
+        elif u < 0.4:
+            pts.append(a + d * rng.uniform(8, 15))                  # tail
+        else:
+            pts.append(a + np.array([rng.gauss(0, 0.9) for _ in range(3)]))
+    pts = np.array(pts).reshape(n, 3)
     return at, nums, pts, _table(rng, n, m)
 
 
@@ -504,8 +605,12 @@ def corr(ctx: Ctx):
     mod = importlib.import_module("grid.becke")
     hmod = importlib.import_module("grid.hirshfeld")
     _corr_formulas(ctx, mod)
+    _corr_init(ctx, mod)
     ctx.extra["max_abs_deviation_model_vs_implementation"] = _corr_molecules(ctx, mod, hmod)
     _corr_hirshfeld(ctx, hmod)
+    _corr_hirshfeld_gen(ctx, hmod)
+    _corr_kinds(ctx, mod, hmod)
+    _corr_reuse(ctx, mod, hmod)
 
 
 # ----------------------------------------------------------------------------------------------
@@ -586,6 +691,102 @@ def _rotation(rng):
     return R
 
 
+def _oracle_molecule(ctx: Ctx, mod, mol, tab, motions=True, kinds=False):
+    """the clauses of C06 on one molecule / point set / segmentation, on the implementation"""
+    rng = ctx.rng
+    at, nums, pts, m, n = mol["at"], mol["nums"], mol["pts"], len(mol["at"]), len(mol["pts"])
+    b = _becke(mod, mol)
+    W = np.array([b.generate_weights(pts, at, nums, select=k) for k in range(m)])
+    wit = dict(atnums=nums, atcoords=at, points=pts, order=mol["order"], radii=mol["over"])
+    # partition of unity, bounds
+    s = W.sum(axis=0)
+    if not np.all(np.abs(s - 1) <= 1e-12):
+        j = int(np.nanargmax(np.abs(s - 1))) if not np.all(np.isnan(s)) else 0
+        ctx.fail("oracle", "becke.generate_weights:partition", f"Becke weights of {m} atoms sum to {s[j]!r} at point {pts[j].tolist()} (order {mol['order']})",
+                 witness=dict(wit, point=pts[j], sum=s[j]), snippet=_snippet(mol, tab, SNIPPETS["partition"]))
+    if not (np.all(W >= -1e-13) and np.all(W <= 1 + 1e-13)):
+        ctx.fail("oracle", "becke.generate_weights:bounds", f"Becke weight outside [0,1]: min {np.nanmin(W)!r}, max {np.nanmax(W)!r} ({m} atoms, order {mol['order']})",
+                 witness=wit, snippet=_snippet(mol, tab, SNIPPETS["bounds"]))
+    # nuclei
+    Wn = np.array([b.generate_weights(at, at, nums, select=k) for k in range(m)])
+    if not np.all(np.abs(Wn - np.eye(m)) <= 1e-13):
+        ctx.fail("oracle", "becke.generate_weights:nuclei", f"weights at the nuclei are not 1 (own) / 0 (others) for atnums {nums.tolist()}, order {mol['order']}",
+                 witness=dict(wit, weights_at_nuclei=Wn), snippet=_snippet(mol, tab, SNIPPETS["nuclei"]))
+    # routes: reference = per-atom column of the owner of each point
+    own = np.repeat(np.arange(m), np.diff(tab))
+    ref = W[own, np.arange(n)]
+    routes = [
+        ("becke.generate_weights:segments", lambda: b.generate_weights(pts, at, nums, pt_ind=tab)),
+        ("becke.compute_weights:segments", lambda: b.compute_weights(pts, at, nums, pt_ind=tab)),
+        ("becke.compute_atom_weight:per-atom", lambda: np.concatenate([b.compute_atom_weight(pts[tab[k]:tab[k + 1]], at, nums, k) for k in range(m)])),
+        ("becke.__call__:chunking", lambda: b(pts, at, nums, np.array(tab))),
+        # a second call on the same object, after the others (no state may be carried)
+        ("becke.__call__:repeated", lambda: b(pts, at, nums, np.array(tab))),
+    ]
+    if kinds:
+        pts32 = pts.astype(np.float32)
+        if np.all(pts32.astype(float) == pts):
+            routes.append(("becke.__call__:float32-points", lambda: b(pts32, at, nums, np.array(tab, dtype=np.int32))))
+        routes.append(("becke.__call__:float-atnums", lambda: b(np.asfortranarray(pts), at, nums.astype(float), np.array(tab))))
+    for key, fn in routes:
+        try:
+            got = np.asarray(fn())
+            ok = got.shape == ref.shape and bool(np.all(np.abs(got - ref) <= 1e-13))
+            what = "" if ok else f"max deviation {float(np.max(np.abs(got - ref))) if got.shape == ref.shape else 'shape ' + str(got.shape)}"
+        except Exception as e:
+            ok, what = False, f"raised {type(e).__name__}: {e}"
+        if not ok:
+            ctx.fail("oracle", key, f"{key.split('.', 1)[1]} differs from the per-atom weights on {m} atoms, {n} points, indices {tab}, order {mol['order']}: {what}",
+                     witness=dict(wit, indices=tab), snippet=_snippet(mol, tab, SNIPPETS["routes"]))
+    if not motions:
+        return
+    # rigid motion (rotation or rotoreflection + translation), relabelling
+    R, t = _rotation(rng), np.array([rng.uniform(-5, 5) for _ in range(3)])
+    near = np.max(np.linalg.norm(pts[:, None] - at, axis=-1), axis=1) < 50     # far points: the motion itself loses digits
+    dmin = 1.0
+    if m >= 2:
+        d = np.linalg.norm(at[:, None] - at, axis=-1)
+        dmin = min(1.0, float(np.min(d[~np.eye(m, dtype=bool)])))
+    if np.any(near):
+        W2 = np.array([b.generate_weights(pts[near] @ R.T + t, at @ R.T + t, nums, select=k) for k in range(m)])
+        if not np.all(np.abs(W2 - W[:, near]) <= 1e-9 / dmin):
+            ctx.fail("oracle", "becke.generate_weights:rigid-motion", f"weights change by {float(np.max(np.abs(W2 - W[:, near])))} under a rigid motion ({m} atoms)",
+                     witness=dict(wit, rotation=R, translation=t),
+                     snippet=_snippet(mol, tab, SNIPPETS["rigid-motion"].format(R=R.reshape(-1).tolist(), t=t.tolist(), near=near.tolist())))
+    perm = list(range(m))
+    rng.shuffle(perm)
+    W3 = np.array([b.generate_weights(pts, at[perm], nums[perm], select=k) for k in range(m)])
+    if not np.all(np.abs(W3 - W[perm]) <= 1e-12 / dmin):
+        ctx.fail("oracle", "becke.generate_weights:relabel", f"weights change by {float(np.max(np.abs(W3 - W[perm])))} under relabelling {perm}",
+                 witness=dict(wit, permutation=perm), snippet=_snippet(mol, tab, SNIPPETS["relabel"].format(perm=perm)))
+
+
+def oracle_at(ctx: Ctx, failure):
+    """a correspondence disagreement on a molecule -> the property itself evaluated on that molecule (all orders 0..5 as
+    well: a route that lost `order` shows only for order != 3)."""
+    w = failure.witness or {}
+    if not (isinstance(w, dict) and {"atnums", "atcoords", "points"} <= set(w)):
+        return
+    mod = importlib.import_module("grid.becke")
+    at = np.asarray(w["atcoords"], dtype=float).reshape(-1, 3)
+    nums = np.asarray(w["atnums"]).astype(int)
+    pts = np.asarray(w["points"], dtype=float).reshape(-1, 3)
+    if len(pts) == 0 or len(at) == 0 or len(nums) != len(at):
+        return
+    over = w.get("radii") or {}
+    over = {int(z): float(v) for z, v in over.items()} if isinstance(over, dict) else {}
+    over = {z: v for z, v in over.items() if v == v}
+    if not _radii_positive(nums, over):
+        return
+    orders = [int(w.get("order", 3))] + [o for o in (0, 1, 2, 4, 5) if o != w.get("order")]
+    for order in orders:
+        mol = dict(at=at, nums=nums, pts=pts, order=order, over=over)
+        tab = w.get("indices")
+        if not (isinstance(tab, (list, tuple, np.ndarray)) and len(tab) == len(at) + 1 and list(tab) == sorted(tab) and tab[0] == 0 and tab[-1] == len(pts)):
+            tab = _table(ctx.rng, len(pts), len(at))
+        _oracle_molecule(ctx, mod, mol, [int(v) for v in tab], motions=False, kinds=True)
+
+
 def oracle(ctx: Ctx, budget: str):
     mod = importlib.import_module("grid.becke")
     hmod = importlib.import_module("grid.hirshfeld")
@@ -594,66 +795,52 @@ def oracle(ctx: Ctx, budget: str):
     nmol = 1500 if budget == "large" else ctx.n(150, 1500)
     sizes = [1, 2, 2, 3, 4, 5, 8, 13]
     for i in range(nmol):
-        mol = _molecule(ctx, m=sizes[i] if i < len(sizes) else None)
+        close = 10.0 ** -rng.choice([2, 4, 6, 8]) if i % 9 == 8 else None       # nearly coincident (distinct) nuclei
+        mol = _molecule(ctx, m=sizes[i] if i < len(sizes) else None, close=close)
         mol["over"] = {z: v for z, v in mol["over"].items() if v == v}
         if i % 5 == 0 and len(mol["at"]) >= 4:
             mol["pts"] = _points(rng, mol["at"], rng.choice([40, 90]))
-        at, nums, pts, m, n = mol["at"], mol["nums"], mol["pts"], len(mol["at"]), len(mol["pts"])
-        if n == 0:
+        if i % 7 == 3:
+            # coordinates representable in float32, points on nuclei included
+            mol["at"] = np.round(mol["at"] * 8) / 8
+            mol["pts"] = np.round(mol["pts"] * 8) / 8
+            if len(set(map(tuple, mol["at"]))) < len(mol["at"]):
+                continue
+        if len(mol["pts"]) == 0:
             continue
-        b = _becke(mod, mol)
-        tab = _table(rng, n, m)
-        W = np.array([b.generate_weights(pts, at, nums, select=k) for k in range(m)])
-        wit = dict(atnums=nums, atcoords=at, points=pts, order=mol["order"], radii=mol["over"])
-        # partition of unity, bounds
-        s = W.sum(axis=0)
-        if not np.all(np.abs(s - 1) <= 1e-12):
-            j = int(np.nanargmax(np.abs(s - 1))) if not np.all(np.isnan(s)) else 0
-            ctx.fail("oracle", "becke.generate_weights:partition", f"Becke weights of {m} atoms sum to {s[j]!r} at point {pts[j].tolist()} (order {mol['order']})",
-                     witness=dict(wit, point=pts[j], sum=s[j]), snippet=_snippet(mol, tab, SNIPPETS["partition"]))
-        if not (np.all(W >= -1e-13) and np.all(W <= 1 + 1e-13)):
-            ctx.fail("oracle", "becke.generate_weights:bounds", f"Becke weight outside [0,1]: min {np.nanmin(W)!r}, max {np.nanmax(W)!r} ({m} atoms, order {mol['order']})",
-                     witness=wit, snippet=_snippet(mol, tab, SNIPPETS["bounds"]))
-        # nuclei
-        Wn = np.array([b.generate_weights(at, at, nums, select=k) for k in range(m)])
-        if not np.all(np.abs(Wn - np.eye(m)) <= 1e-13):
-            ctx.fail("oracle", "becke.generate_weights:nuclei", f"weights at the nuclei are not 1 (own) / 0 (others) for atnums {nums.tolist()}, order {mol['order']}",
-                     witness=dict(wit, weights_at_nuclei=Wn), snippet=_snippet(mol, tab, SNIPPETS["nuclei"]))
-        # routes: reference = per-atom column of the owner of each point
-        own = np.repeat(np.arange(m), np.diff(tab))
-        ref = W[own, np.arange(n)]
-        routes = (
-            ("becke.generate_weights:segments", lambda: b.generate_weights(pts, at, nums, pt_ind=tab)),
-            ("becke.compute_weights:segments", lambda: b.compute_weights(pts, at, nums, pt_ind=tab)),
-            ("becke.compute_atom_weight:per-atom", lambda: np.concatenate([b.compute_atom_weight(pts[tab[k]:tab[k + 1]], at, nums, k) for k in range(m)])),
-            ("becke.__call__:chunking", lambda: b(pts, at, nums, np.array(tab))),
-        )
-        for key, fn in routes:
-            try:
-                got = np.asarray(fn())
-                ok = got.shape == ref.shape and bool(np.all(np.abs(got - ref) <= 1e-13))
-                what = "" if ok else f"max deviation {float(np.max(np.abs(got - ref))) if got.shape == ref.shape else 'shape ' + str(got.shape)}"
-            except Exception as e:
-                ok, what = False, f"raised {type(e).__name__}: {e}"
-            if not ok:
-                ctx.fail("oracle", key, f"{key.split('.', 1)[1]} differs from the per-atom weights on {m} atoms, {n} points, indices {tab}: {what}",
-                         witness=dict(wit, indices=tab), snippet=_snippet(mol, tab, SNIPPETS["routes"]))
-        # rigid motion (rotation or rotoreflection + translation), relabelling
-        if i % 2 == 0:
-            R, t = _rotation(rng), np.array([rng.uniform(-5, 5) for _ in range(3)])
-            near = np.max(np.linalg.norm(pts[:, None] - at, axis=-1), axis=1) < 50     # far points: the motion itself loses digits
-            if np.any(near):
-                W2 = np.array([b.generate_weights(pts[near] @ R.T + t, at @ R.T + t, nums, select=k) for k in range(m)])
-                if not np.all(np.abs(W2 - W[:, near]) <= 1e-9):
-                    ctx.fail("oracle", "becke.generate_weights:rigid-motion", f"weights change by {float(np.max(np.abs(W2 - W[:, near])))} under a rigid motion ({m} atoms)",
-                             witness=dict(wit, rotation=R, translation=t),
-                             snippet=_snippet(mol, tab, SNIPPETS["rigid-motion"].format(R=R.reshape(-1).tolist(), t=t.tolist(), near=near.tolist())))
-            perm = list(range(m))
-            rng.shuffle(perm)
-            W3 = np.array([b.generate_weights(pts, at[perm], nums[perm], select=k) for k in range(m)])
-            if not np.all(np.abs(W3 - W[perm]) <= 1e-12):
-                ctx.fail("oracle", "becke.generate_weights:relabel", f"weights change by {float(np.max(np.abs(W3 - W[perm])))} under relabelling {perm}",
-                         witness=dict(wit, permutation=perm), snippet=_snippet(mol, tab, SNIPPETS["relabel"].format(perm=perm)))
+        big_order = i % 11 == 5
+        if big_order:
+            mol["order"] = rng.choice([6, 7, 8])         # legitimate, large: the weights approach step functions
+        tab = _table(rng, len(mol["pts"]), len(mol["at"]))
+        _oracle_molecule(ctx, mod, mol, tab, motions=(i % 2 == 0 and not big_order), kinds=(i % 7 == 3))
+    # orders >= 9: in double precision 1 - f^[order](nu) underflows to exactly 0 for nu >~ 0.4, so at points where every atom
+    # loses against some partner (heteronuclear molecules, >= 3 atoms) all cell products are 0 and the weights are 0/0 = nan.
+    # Over the reals the clause holds for every order (cell_sum_pos); rounding is outside the model -> recorded with a witness.
+    nan_pts, nan_wit = 0, None
+    for order in (9, 12, 20, 60):
+        for _ in range(6 if big else 2):
+            mol = _molecule(ctx, m=rng.choice([3, 4, 5]), n=120)
+            mol["order"], mol["over"] = order, {}
+            mol["nums"][:] = [rng.choice([1, 55, 8, 19, 3, 9, 37]) for _ in mol["nums"]]      # very different radii: clipped alpha
+            b = _becke(mod, mol)
+            W = np.array([b.generate_weights(mol["pts"], mol["at"], mol["nums"], select=k) for k in range(len(mol["at"]))])
+            bad = np.isnan(W).any(axis=0)
+            if bad.any():
+                nan_pts += int(bad.sum())
+                if nan_wit is None or order < nan_wit["order"]:
+                    nan_wit = dict(order=order, atnums=mol["nums"].tolist(), atcoords=mol["at"].tolist(), point=mol["pts"][int(np.argmax(bad))].tolist())
+            ok = ~bad
+            if ok.any() and not (np.all(np.abs(W[:, ok].sum(axis=0) - 1) <= 1e-12) and np.all(W[:, ok] >= -1e-13) and np.all(W[:, ok] <= 1 + 1e-13)):
+                ctx.fail("oracle", "becke.generate_weights:partition", f"Becke weights at order {order}: finite weights do not form a partition of unity",
+                         witness=dict(atnums=mol["nums"], atcoords=mol["at"], order=order))
+    ctx.extra["nan_weight_points_at_orders_ge_9"] = nan_pts
+    if nan_wit is not None:
+        ctx.info(f"order >= 9: weights are nan (0/0, every cell product underflows to 0) at {nan_pts} sampled points; smallest witness of this run: {nan_wit}")
+    if big:
+        # more than 100 atoms: every chunk of __call__ has one point
+        mol = _molecule(ctx, m=rng.choice([101, 128]), n=6)
+        mol["over"] = {}
+        _oracle_molecule(ctx, mod, mol, _table(rng, 6, len(mol["at"])), motions=False)
     # known difference between the routes for an explicit, permuted `select` (outside the quantifier of C06: info only)
     mol = _molecule(ctx, m=3, n=6)
     b = _becke(mod, mol)
@@ -666,10 +853,24 @@ def oracle(ctx: Ctx, budget: str):
         ctx.info(f"explicit select probe raised {type(e).__name__}")
     # Hirshfeld: shares sum to one; the call returns the share of the owner
     H = hmod.HirshfeldWeights
+    shared = H()                       # one object for the whole loop: a remembered pro-atom must not change later values
+    have = sorted(int(p.name[1:4]) for p in importlib.import_module("importlib.resources").files("grid.data.proatoms").iterdir() if p.name.endswith(".npz"))
+    for z in [2, 3, 9, 10, 16, 17, 26, 79, 86] + [rng.randrange(1, 119) for _ in range(6)]:
+        if z in have:
+            continue
+        at, nums, pts, tab = _hirshfeld_case(ctx, hmod, m=2)
+        nums = nums.copy()
+        nums[rng.randrange(2)] = z
+        try:
+            got = shared(pts, at, nums, np.array(tab))
+            ctx.fail("oracle", "hirshfeld.__call__:unsupported-element", f"HirshfeldWeights.__call__ accepts atomic number {z}, for which no pro-atom density is shipped, and returns {np.asarray(got)[:3].tolist()}…",
+                     witness=dict(atnums=nums, atcoords=at, points=pts, indices=tab))
+        except Exception:
+            pass
     for i in range(200 if budget == "large" else ctx.n(12, 120)):
         at, nums, pts, tab = _hirshfeld_case(ctx, hmod)
         m, n = len(at), len(pts)
-        hw = H()
+        hw = shared if i % 2 == 0 else H()
         total = np.zeros(n)
         per = []
         for k in range(m):
@@ -689,3 +890,369 @@ def oracle(ctx: Ctx, budget: str):
         rho = np.array([H.generate_proatom(pts, at[k], nums[k]) for k in range(m)])
         if not np.all(np.abs(per * rho.sum(axis=0) - rho) <= 1e-12 * np.abs(rho).sum(axis=0)):
             ctx.fail("oracle", "hirshfeld.__call__:share", "Hirshfeld weight times pro-molecule density differs from the pro-atom density", witness=wit, snippet=_hsnippet(at, nums, pts, tab))
+
+
+# ----------------------------------------------------------------------------------------------
+# round 2: __init__, Hirshfeld through the generated call, argument kinds, object reuse
+# ----------------------------------------------------------------------------------------------
+def _corr_init(ctx: Ctx, mod):
+    """`BeckeWeights.__init__` against the generated `init` (+ the generated radius comprehension of both copies)."""
+    B = mod.BeckeWeights
+    rng = ctx.rng
+    orders = [("i 3", 3), ("i 0", 0), ("i 1", 1), ("i -2", -2), ("i 60", 60), ("i 1", True), ("i 0", False),
+              ("o", np.int64(3)), ("o", 3.0), ("o", None), ("o", "3"), ("o", np.int32(2)), ("o", [3])]
+    zs = list(range(-2, 90))
+    cases = []
+    for _ in range(ctx.n(60, 800)):
+        otok, oval = rng.choice(orders) if rng.random() < 0.6 else (lambda n: (f"i {n}", n))(rng.randrange(0, 9))
+        u = rng.random()
+        if u < 0.3:
+            rtok, rval = "-", None
+        elif u < 0.4:
+            rval = rng.choice([[(1, 0.5)], "H", 1.0, ((1, 0.5),), np.array([1.0])])
+            rtok = "x"
+        else:
+            k = rng.choice([0, 1, 1, 2, 3])
+            rval, toks = {}, []
+            for _i in range(k):
+                z = rng.choice([1, 2, 3, 6, 10, 17, 18, 36, 85, 86, 87, 100, 0, -1, rng.randrange(1, 87)])
+                v = rng.choice([0.5, 1.0, 2.25, float("nan"), rng.uniform(0.2, 5.0), 0.0])
+                kind = rng.random()
+                if kind < 0.72:
+                    key, kt = int(z), f"i {int(z)}"
+                elif kind < 0.8 and z in (0, 1):
+                    key, kt = bool(z), f"i {int(z)}"          # a bool is an int
+                else:
+                    key, kt = rng.choice([np.int64(z), float(z), str(z), np.int32(z)]), "o"
+                if key in rval:
+                    continue
+                rval[key] = v
+                toks.append(f"{kt} {f2b(v)}")
+            rtok = " ".join(["d", str(len(toks))] + toks)
+        cases.append((f"C06.ginit {otok} {rtok} {vec(zs)}", oval, rval))
+    ans = driver_batch([c[0] for c in cases])
+    for (line, oval, rval), a in zip(cases, ans):
+        try:
+            obj = B(radii=rval, order=oval)
+            impl = "ok"
+        except ValueError:
+            impl, obj = "value-error", None
+        except TypeError:
+            impl, obj = "type-error", None
+        ctx.count(["init", repr(oval), repr(rval)], nontrivial=rval is not None or not isinstance(oval, int), tag=f"init:{impl}")
+        if impl != "ok":
+            if a != impl:
+                ctx.fail("corr", "becke.__init__", f"BeckeWeights(radii={rval!r}, order={oval!r}): implementation {impl}, generated model {a}",
+                         witness={"radii": repr(rval), "order": repr(oval)})
+            continue
+        toks = a.split()
+        ok = toks[:1] == ["ok"] and len(toks) >= 2 and int(toks[1]) == int(obj._order) and type(obj._order) in (int, bool)
+        look, i = [], 2
+        while ok and i < len(toks):
+            if toks[i] == "v":
+                look.append(b2f(toks[i + 1])); i += 2
+            else:
+                look.append(toks[i]); i += 1
+        if ok and len(look) == len(zs):
+            for z, got in zip(zs, look):
+                try:
+                    r = obj._radii[z]
+                    want = float(r) if not np.isnan(r) else float(np.nan_to_num(obj._radii[z - 1]) or np.nan_to_num(obj._radii[z - 2]))
+                except KeyError:
+                    want = "key-error"
+                if want != got:
+                    ok = False
+                    ctx.fail("corr", "becke.__init__:radii", f"BeckeWeights(radii={rval!r}): radius used for Z={z}: implementation {want}, generated model {got}",
+                             witness={"radii": repr(rval), "order": repr(oval), "Z": z})
+                    break
+        elif ok or not toks[:1] == ["ok"]:
+            ctx.fail("corr", "becke.__init__", f"BeckeWeights(radii={rval!r}, order={oval!r}): implementation ok (order {obj._order!r}), generated model {a[:80]}",
+                     witness={"radii": repr(rval), "order": repr(oval)})
+
+
+_PRO = {}
+
+
+def _spline_tables(hmod, at, nums, pts):
+    """independent evaluation of every shipped pro-atom spline at every |point - nucleus| (own np.load + CubicSpline,
+    not through the hirshfeld module): {index in the sorted listing: [(x, y), …]}"""
+    from importlib.resources import files as _files
+    from scipy.interpolate import CubicSpline
+
+    root = _files("grid.data.proatoms")
+    names = sorted(p.name for p in root.iterdir() if p.name.endswith(".npz"))
+    dist = np.linalg.norm(pts[:, None] - at, axis=-1).reshape(-1) if len(pts) and len(at) else np.zeros(0)
+    out = []
+    for i, name in enumerate(names):
+        if name not in _PRO:
+            d = np.load(root.joinpath(name))
+            _PRO[name] = CubicSpline(d["r"], d["dn"], bc_type="natural", extrapolate=True)
+        y = _PRO[name](dist)
+        out.append((i, dist, y))
+    return names, out
+
+
+def _corr_hirshfeld_gen(ctx: Ctx, hmod):
+    """`HirshfeldWeights.__call__` against the generated call: the model chooses the file from the atomic number by the
+    generated name, the harness supplies every shipped file's spline values; rejected inputs included."""
+    H = hmod.HirshfeldWeights
+    rng = ctx.rng
+    jobs = []
+    for i in range(ctx.n(40, 500)):
+        at, nums, pts, tab = _hirshfeld_case(ctx, hmod, m=(i % 4) + 1 if i < 8 else None)
+        dt = 1
+        u = rng.random()
+        if u < 0.12:
+            nums = nums.copy()
+            nums[rng.randrange(len(nums))] = rng.choice([2, 3, 5, 9, 16, 17, 26, 86, 0, 118, 1000])   # no pro-atom file
+        elif u < 0.2:
+            nums = nums.astype(rng.choice([np.int32, np.float64, np.int16, np.uint8]))
+            dt = 0
+        if rng.random() < 0.2:
+            tab = [rng.randrange(0, len(pts) + 2) for _ in tab]
+        if rng.random() < 0.08:
+            tab = tab[:-1]
+        hw = H()
+        try:
+            impl = ("ok", np.asarray(hw(pts, at, nums, np.array(tab, dtype=int)), dtype=float))
+        except FileNotFoundError:
+            impl = ("file-not-found-error", None)
+        except TypeError:
+            impl = ("type-error", None)
+        except IndexError:
+            impl = ("index-error", None)
+        names, tabs = _spline_tables(hmod, at, np.asarray(nums), pts)
+        ft = " ".join(f"{fi} {2 * len(x)} " + " ".join(f"{f2b(a)} {f2b(b)}" for a, b in zip(x, y)) if len(x) else f"{fi} 0" for fi, x, y in tabs)
+        line = f"C06.ghirsh {dt} {vec([int(z) for z in nums])} {fmat(at)} {_pts_tokens(pts)} {vec(tab)} {len(tabs)} {ft}"
+        jobs.append((line, impl, dict(atnums=np.asarray(nums), dtype=str(np.asarray(nums).dtype), atcoords=at, points=pts, indices=tab)))
+    ans = driver_batch([j[0] for j in jobs])
+    for (line, impl, case), a in zip(jobs, ans):
+        ctx.count(dict(case, op="hirshfeld-generated"), nontrivial=len(case["atnums"]) >= 2, tag=f"hirshfeld-gen:{impl[0]}")
+        model = _parse(a)
+        ok = impl[0] == model[0] and (impl[1] is None or (impl[1].shape == model[1].shape and all(
+            (x != x and y != y) or close(x, y, rtol=1e-10, scale=max(1.0, abs(x))) for x, y in zip(impl[1], model[1]))))
+        if not ok:
+            ctx.fail("corr", "hirshfeld.__call__:generated", f"HirshfeldWeights.__call__ atnums={case['atnums'].tolist()} ({case['dtype']}) indices={case['indices']}: "
+                     f"implementation {impl[0]} {None if impl[1] is None else impl[1][:4]}, generated model {model[0]} {None if model[1] is None else model[1][:4]}", witness=case)
+
+
+def _bytes(*arrs):
+    return [np.asarray(a).tobytes() for a in arrs]
+
+
+def _corr_kinds(ctx: Ctx, mod, hmod):
+    """dtype / container kind / memory layout of the array arguments, scalar kinds of `select` and `order`:
+    every accepted variant must give the float64 / int64 / C-contiguous answer; inputs stay untouched."""
+    rng = ctx.rng
+    for it in range(ctx.n(14, 160)):
+        mol = _molecule(ctx, m=rng.choice([1, 2, 3, 4, 6]), n=rng.choice([1, 2, 5, 9]))
+        mol["over"] = {}
+        if it % 3 == 0:                       # coordinates exactly representable in float32, some points on nuclei
+            mol["at"] = np.round(mol["at"] * 4) / 4
+            mol["pts"] = np.round(mol["pts"] * 4) / 4
+            if len(set(map(tuple, mol["at"]))) < len(mol["at"]):
+                continue
+            for j in range(len(mol["pts"])):
+                if rng.random() < 0.4:
+                    mol["pts"][j] = mol["at"][rng.randrange(len(mol["at"]))]
+        at, nums, pts, m, n = mol["at"], mol["nums"], mol["pts"], len(mol["at"]), len(mol["pts"])
+        tab = _table(rng, n, m)
+        ind = np.array(tab)
+        b = _becke(mod, mol)
+        k = rng.randrange(m)
+        ref = dict(call=b(pts, at, nums, ind), gen=b.generate_weights(pts, at, nums, pt_ind=tab), cmp=b.compute_weights(pts, at, nums, pt_ind=tab),
+                   atom=b.compute_atom_weight(pts, at, nums, k))
+        pts32 = pts.astype(np.float32)
+        exact32 = bool(np.all(pts32.astype(float) == pts))
+        junk = np.hstack([pts, pts + 1.0])
+        ro = pts.copy(); ro.setflags(write=False)
+        atro = at.copy(); atro.setflags(write=False)
+        variants = [
+            ("points:float32", exact32, dict(pts=pts32)),
+            ("points:fortran-order", True, dict(pts=np.asfortranarray(pts))),
+            ("points:non-contiguous", True, dict(pts=junk[:, :3])),
+            ("points:read-only", True, dict(pts=ro)),
+            ("atcoords:fortran-order", True, dict(at=np.asfortranarray(at))),
+            ("atcoords:read-only", True, dict(at=atro)),
+            ("atnums:float64", True, dict(nums=nums.astype(float))),
+            ("atnums:int32", True, dict(nums=nums.astype(np.int32))),
+            ("atnums:uint8", True, dict(nums=nums.astype(np.uint8))),
+            ("atnums:non-contiguous", True, dict(nums=np.repeat(nums, 2)[::2])),
+            ("indices:int32", True, dict(ind=ind.astype(np.int32))),
+            ("indices:non-contiguous", True, dict(ind=np.repeat(ind, 2)[::2])),
+            ("pt_ind:tuple", True, dict(tab=tuple(tab))),
+            ("pt_ind:ndarray", True, dict(tab=ind)),
+            ("pt_ind:int32", True, dict(tab=ind.astype(np.int32))),
+        ]
+        for name, applicable, kw in variants:
+            if not applicable:
+                continue
+            P, A, Z, I, T = kw.get("pts", pts), kw.get("at", at), kw.get("nums", nums), kw.get("ind", ind), kw.get("tab", tab)
+            before = _bytes(P, A, Z, I)
+            calls = dict(call=lambda: b(P, A, Z, I), gen=lambda: b.generate_weights(P, A, Z, pt_ind=T), cmp=lambda: b.compute_weights(P, A, Z, pt_ind=T),
+                         atom=lambda: b.compute_atom_weight(P, A, Z, k))
+            for route, fn in calls.items():
+                if (route == "call") == ("tab" in kw) or (route == "atom" and ("ind" in kw or "tab" in kw)):
+                    continue
+                ctx.count(["kinds", name, route, m, n], nontrivial=m >= 2, tag=f"kinds:{name}")
+                try:
+                    with np.errstate(all="ignore"):
+                        got = np.asarray(fn())
+                    ok = got.shape == ref[route].shape and got.dtype == np.float64 and bool(np.all(np.abs(got - ref[route]) <= 1e-15))
+                    what = f"max deviation {float(np.max(np.abs(got - ref[route]))) if got.shape == ref[route].shape else got.shape}, dtype {got.dtype}"
+                except Exception as e:
+                    ok, what = False, f"raised {type(e).__name__}: {e}"
+                if not ok:
+                    ctx.fail("corr", f"becke.kinds:{name}", f"{route} with {name} differs from the float64 / int64 / contiguous call on the same values: {what}",
+                             witness=dict(atnums=nums, atcoords=at, points=pts, indices=tab, variant=name, route=route, order=mol["order"]))
+            if before != _bytes(P, A, Z, I):
+                ctx.fail("corr", f"becke.kinds:{name}:mutated", f"an argument array was modified by a call with {name}", witness=dict(variant=name))
+        # atcoords in single precision (same values): the inter-nuclear distances `np.linalg.norm(atcoords[:, None] - atcoords)`
+        # are then computed in float32; the partition clauses still hold, the values lose digits -> recorded, not a failure
+        if bool(np.all(at.astype(np.float32).astype(float) == at)) and m >= 2:
+            got = b(pts, at.astype(np.float32), nums, ind)
+            dev = float(np.max(np.abs(got - ref["call"]))) if n else 0.0
+            ctx.count(["kinds", "atcoords:float32", m, n], nontrivial=True, tag="kinds:atcoords:float32")
+            ctx.extra["max_deviation_float32_atcoords_vs_float64"] = max(ctx.extra.get("max_deviation_float32_atcoords_vs_float64", 0.0), dev)
+            if dev > 1e-6:
+                ctx.fail("corr", "becke.kinds:atcoords:float32", f"__call__ with float32 atcoords (same values) deviates by {dev} from the float64 call",
+                         witness=dict(atnums=nums, atcoords=at, points=pts, indices=tab, order=mol["order"]))
+        # scalar kinds of select
+        for sel in (np.int64(k), np.int32(k), int(k)):
+            got = b.generate_weights(pts, at, nums, select=sel)
+            got2 = b.compute_weights(pts, at, nums, select=sel)
+            ctx.count(["kinds", "select", type(sel).__name__], nontrivial=False, tag="kinds:select")
+            if not (np.array_equal(got, ref["atom"]) and np.array_equal(got2, ref["atom"])):
+                ctx.fail("corr", "becke.kinds:select", f"select={sel!r} ({type(sel).__name__}) differs from compute_atom_weight(…, {k})",
+                         witness=dict(atnums=nums, atcoords=at, points=pts, select=int(k)))
+        # containers outside the documented ndarray API: accepted => must agree; rejected => information only
+        for name, fn, route in (("atnums:list", lambda: b(pts, at, [int(z) for z in nums], ind), "call"),
+                                ("indices:list", lambda: b(pts, at, nums, list(tab)), "call"),
+                                ("points:list", lambda: b.generate_weights(pts.tolist(), at, nums, pt_ind=tab), "gen"),
+                                ("atcoords:list", lambda: b.compute_atom_weight(pts, at.tolist(), nums, k), "atom")):
+            ctx.count(["kinds", name], nontrivial=False, tag=f"kinds:{name}")
+            try:
+                with warnings_off():
+                    got = np.asarray(fn())
+            except (TypeError, AttributeError) as e:
+                ctx.tagc(f"kinds:{name}:rejected:{type(e).__name__}")
+                continue
+            if got.shape != ref[route].shape or not np.all(np.abs(got - ref[route]) <= 1e-15):
+                ctx.fail("corr", f"becke.kinds:{name}", f"{route} accepts {name} but returns different numbers", witness=dict(atnums=nums, atcoords=at, points=pts, indices=tab))
+    # a single point given as shape (3,) instead of (1, 3): outside the documented (N, 3); recorded
+    mol = _molecule(ctx, m=3, n=1)
+    b = _becke(mod, mol)
+    try:
+        with warnings_off():
+            one = np.asarray(b.generate_weights(mol["pts"][0], mol["at"], mol["nums"], select=0))
+            ref1 = b.generate_weights(mol["pts"], mol["at"], mol["nums"], select=0)
+        ctx.count(["kinds", "points:shape(3,)"], nontrivial=False, tag="kinds:points:shape(3,)")
+        if one.shape != ref1.shape:
+            ctx.info(f"generate_weights with a single point of shape (3,) returns shape {one.shape} (the weight repeated: {bool(np.all(one == ref1[0]))}); "
+                     "the documented shape is (N, 3)")
+    except Exception as e:
+        ctx.info(f"generate_weights with a single point of shape (3,) raises {type(e).__name__}")
+    # Hirshfeld
+    H = hmod.HirshfeldWeights
+    for it in range(ctx.n(4, 40)):
+        at, nums, pts, tab = _hirshfeld_case(ctx, hmod)
+        ind = np.array(tab)
+        ref = H()(pts, at, nums, ind)
+        ro = pts.copy(); ro.setflags(write=False)
+        for name, kw in (("points:float32", dict(pts=pts.astype(np.float32))), ("points:read-only", dict(pts=ro)), ("points:fortran-order", dict(pts=np.asfortranarray(pts))),
+                         ("atcoords:fortran-order", dict(at=np.asfortranarray(at))), ("indices:int32", dict(ind=ind.astype(np.int32))), ("indices:list", dict(ind=list(tab))),
+                         ("atnums:non-contiguous", dict(nums=np.repeat(nums, 2)[::2]))):
+            P, A, Z, I = kw.get("pts", pts), kw.get("at", at), kw.get("nums", nums), kw.get("ind", ind)
+            want = ref if name != "points:float32" else H()(np.asarray(P, dtype=float), at, nums, ind)
+            ctx.count(["kinds", "hirshfeld", name], nontrivial=len(at) >= 2, tag=f"kinds:hirshfeld:{name}")
+            try:
+                got = np.asarray(H()(P, A, Z, I))
+                ok = got.shape == want.shape and bool(np.all(np.abs(got - want) <= 1e-15 * np.maximum(1, np.abs(want))))
+                what = "" if ok else f"max deviation {float(np.max(np.abs(got - want)))}"
+            except Exception as e:
+                ok, what = False, f"raised {type(e).__name__}: {e}"
+            if not ok:
+                ctx.fail("corr", f"hirshfeld.kinds:{name}", f"HirshfeldWeights.__call__ with {name} differs from the plain call: {what}",
+                         witness=dict(atnums=nums, atcoords=at, points=pts, indices=tab))
+
+
+class warnings_off:
+    def __enter__(self):
+        import warnings
+
+        self.c = warnings.catch_warnings()
+        self.c.__enter__()
+        warnings.simplefilter("ignore")
+        self.e = np.errstate(all="ignore")
+        self.e.__enter__()
+
+    def __exit__(self, *a):
+        self.e.__exit__(*a)
+        self.c.__exit__(*a)
+
+
+def _corr_reuse(ctx: Ctx, mod, hmod):
+    """state carried between calls: ONE BeckeWeights object (and one HirshfeldWeights object) is used for several
+    molecules in turn, overlapping and in different orders, through every route; every answer is compared with the
+    stateless Lean model and with a freshly built object; the object's dictionary and order must not change."""
+    rng = ctx.rng
+    for rep in range(ctx.n(3, 30)):
+        order = rng.choice([1, 2, 3, 4])
+        over = rng.choice([{}, {}, {6: 1.3}, {2: float("nan"), 1: 0.9}])
+        mols = [_molecule(ctx, m=rng.choice([1, 2, 3, 4, 5, 7]), n=rng.choice([2, 5, 9, 14])) for _ in range(4)]
+        for mo in mols:
+            mo["order"], mo["over"] = order, dict(over)
+        # nan-radius elements and ordinary ones, the same element in several molecules
+        mols[1]["nums"][:] = [rng.choice(NAN_Z + [1, 6]) for _ in mols[1]["nums"]]
+        mols[2]["nums"][:] = [rng.choice([1, 6, 8]) for _ in mols[2]["nums"]]
+        # same number of atoms and points as molecule 0, other elements and positions (a memo keyed by sizes would mix them up)
+        mols[3] = _molecule(ctx, m=len(mols[0]["at"]), n=len(mols[0]["pts"]))
+        mols[3]["order"], mols[3]["over"] = order, dict(over)
+        mols[3]["nums"][:] = [rng.choice([3, 9, 17, 55, 26]) for _ in mols[3]["nums"]]
+        shared = mod.BeckeWeights(radii=dict(over) or None, order=order)
+        radii0 = {k: (None if v != v else float(v)) for k, v in shared._radii.items()}
+        seq = [0, 1, 0, 2, 1, 3, 0, 2, 2]
+        rng.shuffle(seq)
+        jobs = []
+        for step, mi in enumerate(seq):
+            mo = mols[mi]
+            at, nums, pts, m, n = mo["at"], mo["nums"], mo["pts"], len(mo["at"]), len(mo["pts"])
+            tab = _table(rng, n, m)
+            k = rng.randrange(m)
+            route = rng.choice(["call", "generate", "compute", "atom"])
+            fresh = _becke(mod, mo)
+            fns = {"call": lambda o: o(pts, at, nums, np.array(tab)), "generate": lambda o: o.generate_weights(pts, at, nums, pt_ind=tab),
+                   "compute": lambda o: o.compute_weights(pts, at, nums, pt_ind=tab), "atom": lambda o: o.compute_atom_weight(pts, at, nums, k)}
+            with warnings_off():
+                got, want = fns[route](shared), fns[route](fresh)
+            ctx.count(["reuse", rep, step, route, mi], nontrivial=step > 0, tag=f"reuse:{route}")
+            ctx.traces += 1
+            if not np.array_equal(got, want):
+                ctx.fail("corr", "becke.reuse", f"{route} on a BeckeWeights object used before for other molecules differs from a fresh object (step {step} of {seq})",
+                         witness=dict(atnums=nums, atcoords=at, points=pts, indices=tab, order=order, radii=over, history=seq, step=step))
+            line = {"call": f"C06.call {_mol_tokens(mo)} {_pts_tokens(pts)} {vec(tab)}", "generate": f"C06.generate {_mol_tokens(mo)} {_pts_tokens(pts)} - {vec(tab)}",
+                    "compute": f"C06.compute {_mol_tokens(mo)} {_pts_tokens(pts)} - {vec(tab)}", "atom": f"C06.atom {_mol_tokens(mo)} {_pts_tokens(pts)} {k}"}[route]
+            jobs.append((line, got, _tol(mo), route, mo, tab))
+            now = {k_: (None if v != v else float(v)) for k_, v in shared._radii.items()}
+            if now != radii0 or shared._order != order:
+                ctx.fail("corr", "becke.reuse:state", f"BeckeWeights object changed by a {route} call (radii or order)", witness=dict(order=order, radii=over, step=step))
+        for (line, got, tol, route, mo, tab), a in zip(jobs, driver_batch([j[0] for j in jobs])):
+            if not _same(("ok", np.asarray(got, dtype=float)), _parse(a), tol):
+                ctx.fail("corr", "becke.reuse", f"{route} on a reused BeckeWeights object differs from the stateless model",
+                         witness=dict(atnums=mo["nums"], atcoords=mo["at"], points=mo["pts"], indices=tab, order=order, radii=over))
+    # Hirshfeld: one object, several molecules, repeated
+    H = hmod.HirshfeldWeights
+    hw = H()
+    cases = [_hirshfeld_case(ctx, hmod) for _ in range(3)]
+    first = {}
+    for step, ci in enumerate([0, 1, 0, 2, 1, 0, 2]):
+        at, nums, pts, tab = cases[ci]
+        got = hw(pts, at, nums, np.array(tab))
+        want = H()(pts, at, nums, np.array(tab))
+        ctx.count(["reuse", "hirshfeld", step, ci], nontrivial=step > 0, tag="reuse:hirshfeld")
+        ctx.traces += 1
+        if not np.array_equal(got, want) or (ci in first and not np.array_equal(got, first[ci])):
+            ctx.fail("corr", "hirshfeld.reuse", "HirshfeldWeights.__call__ repeated on the same object / same arguments returns different values",
+                     witness=dict(atnums=nums, atcoords=at, points=pts, indices=tab, step=step))
+        first.setdefault(ci, got.copy())
+        got[:] = -1.0           # the caller's edit of a result must not leak into later calls
